@@ -63,6 +63,7 @@ class LifecycleOracle:
         self.open_phase: Dict[str, Dict[str, int]] = {}            # task -> {"LOCATING": n, "CONNECTION": n}
         self.user_resets = 0                                        # harness reset/set_info/exit calls in progress
         self.internal_reset_tasks: Set[str] = set()
+        self.internal_reset_objs: Dict[str, Any] = {}
         self.pairs: Set[Any] = set()
         self.abstract: Set[Any] = set()
         self.n_obs = 0
@@ -106,6 +107,16 @@ class LifecycleOracle:
     # -- observations --------------------------------------------------------------------------------------
     def sample(self, t: float, state: str, facade, facade_spa_connected: Optional[bool]) -> None:
         """State sampled at a callback boundary (no delivery)."""
+        # the library's own reset (a ping answered in an error state) must land in IDLE like any reset: the task that runs it may
+        # not end while the state is still the error state
+        if self.internal_reset_tasks and self.user_resets == 0:
+            for key in list(self.internal_reset_tasks):
+                obj = self.internal_reset_objs.get(key)
+                if obj is not None and obj.done():
+                    self.internal_reset_tasks.discard(key)
+                    if state in ERROR_RESETTABLE:
+                        self._problem("reset-not-idle", f"t={t:.3f}: the task {key} that was running the library's own reset ended, but the state is "
+                                      f"still {state} (the reset did not land in IDLE)", sig="reset-not-idle:library-reset-cut-short")
         if state == "CONNECTED":
             if facade is None:
                 self._problem("connected-without-facade", f"t={t:.3f}: state CONNECTED but the facade is None")
@@ -200,6 +211,7 @@ class LifecycleOracle:
                 pass
             elif st in ERROR_RESETTABLE or prev in ERROR_RESETTABLE:
                 self.internal_reset_tasks.add(task)
+                self.internal_reset_objs[task] = d.get("task_obj")
             else:
                 self._problem("unrequested-reset", f"t={t:.3f}: RUNNING_SPA_DISCONNECTED delivered by {task} in state {prev}->{st} with no "
                               f"user reset in progress and no error state to recover from")
